@@ -134,3 +134,6 @@ add("r20_3_drop_sign", "C20", "R20.3", "sign",
     [("macros/src/parse/int.rs", "            quote! { #ns::IBig::from_parts_const(#sign, #u as _) }", "            quote! { #ns::IBig::from_parts_const(#ns::Sign::Positive, #u as _) }")])
 add("r20_4_threshold", "C20", "R20.4", "try_into::<u32>",
     [("macros/src/parse/int.rs", "    if big.bit_len() <= 32 && !static_ {", "    if big.bit_len() <= 33 && !static_ {")])
+
+add("r18_2_halfeven_incl", "C18", "R18.2", "HalfEven",
+    [("float/src/round.rs", "        let incl = !f.repr.significand.bit(0) || (B % 2 == 0 && f.repr.digits() < f.precision());", "        let incl = f.repr.significand.bit(0);")])
